@@ -1503,6 +1503,54 @@ func orderedCallsOn(recv ssa.Value, until ssa.Instruction) (calls []ssa.CallInst
 	return calls, loopy, true
 }
 
+// canonGuard labels a branch arm with its guard. Emptiness tests of a byte
+// string (len(x) == 0, 0 < len(x), len(x) >= 1, ... either polarity) are all
+// rendered as the truth of len(x) > 0.
+func (s *Sym) canonGuard(a Atom) string {
+	if bo, ok := a.V.(*ssa.BinOp); ok && a.Kind == Truth {
+		x, y := s.Of(bo.X), s.Of(bo.Y)
+		isLen := func(t *Term) bool { return t.Op == "len" }
+		k := func(t *Term) string {
+			if t.Op == "const" {
+				return t.Name
+			}
+			return ""
+		}
+		nonEmpty, known := false, false
+		var lt *Term
+		switch {
+		case isLen(x) && k(y) == "0":
+			lt = x
+			switch bo.Op {
+			case token.GTR, token.NEQ:
+				nonEmpty, known = a.Pol, true
+			case token.EQL, token.LEQ:
+				nonEmpty, known = !a.Pol, true
+			}
+		case isLen(y) && k(x) == "0":
+			lt = y
+			switch bo.Op {
+			case token.LSS, token.NEQ:
+				nonEmpty, known = a.Pol, true
+			case token.EQL, token.GEQ:
+				nonEmpty, known = !a.Pol, true
+			}
+		case isLen(x) && k(y) == "1":
+			lt = x
+			switch bo.Op {
+			case token.GEQ:
+				nonEmpty, known = a.Pol, true
+			case token.LSS:
+				nonEmpty, known = !a.Pol, true
+			}
+		}
+		if known {
+			return fmt.Sprintf("%v:bin<>>(%s, const:0)", nonEmpty, lt.String())
+		}
+	}
+	return fmt.Sprintf("%v:%s", a.Pol, s.Of(a.V).String())
+}
+
 // builderTerm: layout of the bytes accumulated in a cryptobyte.Builder up to
 // the instruction `until`.
 func (s *Sym) builderTerm(b ssa.Value, until ssa.Instruction) *Term {
@@ -1553,11 +1601,16 @@ func (s *Sym) builderTerm(b ssa.Value, until ssa.Instruction) *Term {
 			if len(blocks) > 1 {
 				guard := "?"
 				if fs := s.ff.At(b); len(fs) > 0 {
-					guard = fmt.Sprintf("%v:%s", fs[0].Pol, s.Of(fs[0].V).String())
+					guard = s.canonGuard(fs[0])
 				}
 				arm = &Term{Op: "arm", Name: guard, Args: []*Term{arm}}
 			}
 			arms = append(arms, arm)
+		}
+		// arms of one branch in a canonical order (the true arm first), whichever
+		// way round the source wrote the condition
+		if len(arms) == 2 && strings.HasPrefix(arms[0].Name, "false:") && strings.HasPrefix(arms[1].Name, "true:") && arms[0].Name[6:] == arms[1].Name[5:] {
+			arms[0], arms[1] = arms[1], arms[0]
 		}
 		if len(arms) == 1 {
 			sides = append(sides, sidePart{first, T("each", "", arms[0])})
